@@ -283,7 +283,7 @@ def _specs():
 
 
 def shards(tier):
-    per = 60 if tier == "quick" else 1500
+    per = 60 if tier == "quick" else 6000
     return [{"kind": "files", "n": per, "idx": i} for i in range(12)]
 
 
